@@ -10,12 +10,12 @@
 (*                                           the current drawdown]          *)
 EXTENDS Drawdown, Json, TLC
 VARIABLES hist, done
-gvars == <<curve, gen, emitted, last, hist, done>>
+gvars == <<curve, gen, emitted, seen, last, hist, done>>
 
 DDJ(d)  == [value |-> RJ(d.value), start |-> d.start, end |-> d.end]
 OptJ(o) == IF o.has THEN DDJ(o.d) ELSE "none"
 MaxJ(S) == IF S = {} THEN "none"
-           ELSE LET M == ByEnd(MaxSet(S)) IN [anyOf |-> [k \in 1..Len(M) |-> DDJ(M[k])]]
+           ELSE LET M == ByPeak(MaxSet(S)) IN [anyOf |-> [k \in 1..Len(M) |-> DDJ(M[k])]]
 MeanJ(S) == IF S = {} THEN "none"
             ELSE LET m == MeanOf(S) IN [count |-> m.count, value |-> RJ(m.value), dur |-> RJ(m.dur)]
 ExpJ(c) == [peak     |-> [v |-> Peak(c).v, t |-> Peak(c).t],
@@ -25,24 +25,27 @@ ExpJ(c) == [peak     |-> [v |-> Peak(c).v, t |-> Peak(c).t],
             mean     |-> MeanJ(Reported(c)),
             fin_max  |-> MaxJ(ReportedFin(c)),
             fin_mean |-> MeanJ(ReportedFin(c))]
-StepJ(c) == [t |-> c[Len(c)].t, v |-> c[Len(c)].v, exp |-> ExpJ(c)]
+\* read: the harness READS the current drawdown on the live generator after this point (ReadCurrent);
+\* by ReadingIsPure no later expectation depends on it
+StepJ(c, rd) == [t |-> c[Len(c)].t, v |-> c[Len(c)].v, read |-> rd, exp |-> ExpJ(c)]
 
 GInit == Init /\ hist = <<>> /\ done = FALSE
 
 GStep == /\ ~done /\ Len(curve) < MaxLen
          /\ \E g \in Gaps, v \in Values : AddPoint(Now + g, v)
-         /\ hist' = Append(hist, StepJ(curve'))
+         /\ hist' = Append(hist, StepJ(curve', FALSE))
          /\ UNCHANGED done
 
 GStepR == /\ ~done /\ Len(curve) < MaxLen
           \* draws bound through singleton sets (notes/HOWTO.md "TLC pitfalls")
-          /\ \E g \in {RandomElement(Gaps)}, v \in {RandomElement(Values)} : AddPoint(Now + g, v)
-          /\ hist' = Append(hist, StepJ(curve'))
+          /\ \E g \in {RandomElement(Gaps)}, v \in {RandomElement(Values)}, rd \in {RandomElement(BOOLEAN)} :
+                /\ AddPoint(Now + g, v)
+                /\ hist' = Append(hist, StepJ(curve', rd))
           /\ UNCHANGED done
 
 GFinish == /\ ~done /\ Len(curve) = MaxLen
            /\ done' = TRUE
-           /\ UNCHANGED <<curve, gen, emitted, last, hist>>
+           /\ UNCHANGED <<curve, gen, emitted, seen, last, hist>>
 
 GSpec  == GInit /\ [][GStep \/ GFinish]_gvars
 GSpecR == GInit /\ [][GStepR \/ GFinish]_gvars
